@@ -38,7 +38,7 @@ func NewProgram(r *rand.Rand, name string, maxDepth, budget int) *Program {
 	p := &Program{Name: name}
 	g := &Gen{R: r, P: p, MaxDepth: maxDepth, budget: budget}
 	// callees first so that main can call them
-	nc := r.Intn(3)
+	nc := r.Intn(4)
 	for i := 0; i < nc; i++ {
 		c := &Component{Name: fmt.Sprintf("%sc%d", name, i+1), Callee: true}
 		g.inCallee = true
@@ -363,8 +363,8 @@ func (g *Gen) node(sc *scope, depth int, ctx pctx) *Node {
 			}
 			return g.switchNode(sc, depth)
 		case k < 26:
-			if len(g.callees) == 0 || g.inCallee {
-				continue
+			if len(g.callees) == 0 {
+				continue // callees may call callees defined before them (no recursion)
 			}
 			nd := &Node{Kind: KCall, Callee: pick(r, g.callees), ArgS: g.sexpr(sc)}
 			nd.ArgS.Err = false
